@@ -418,3 +418,25 @@ func clCursorRevalidated(c *Ctx) {
 		c.Check(!bad, fn, nil, "an unpositioned cursor is not valid", "")
 	}
 }
+
+// The skiplist cursor's built-in refresh re-seeks by key with the cursor's
+// comparator and lands on the oldest physical version of the key; on the
+// multi-version store that is in front of where a snapshot iterator stands
+// (inside the visibility filter it loops for ever, outside it re-delivers).
+// Only nitro.Iterator.Refresh (copy, re-seek, filter) may refresh a store cursor.
+func clBuiltinRefreshNotOnStore(c *Ctx) {
+	p := c.P
+	sri := p.Func("skiplist", "Iterator", "SetRefreshInterval")
+	n := 0
+	for _, fn := range p.Funcs {
+		if fn.Pkg == nil || fn.Pkg.Pkg.Name() != "nitro" {
+			continue
+		}
+		n++
+		for _, cs := range p.CallSites(fn, sri) {
+			c.Check(false, fn, cs, "the key-only built-in cursor refresh is not enabled on a cursor of the multi-version store",
+				"SetRefreshInterval makes skiplist.Iterator.Next re-seek by key: the cursor jumps back to the oldest version of the current key, so a snapshot scan over a key with dead older versions re-delivers items or never terminates")
+		}
+	}
+	c.Check(n > 0 && sri != nil, nil, nil, "nitro package scanned for uses of the skiplist cursor's built-in refresh", "")
+}
